@@ -320,20 +320,8 @@ def _run(ck, m):
         ck.ob('C06.d', adt.split('::')[-1], 'tables-inverse', okt,
               'encode %s / decode %s (default %s) are inverse' % (enc, dec, default) if okt else 'encode %s vs decode %s (default %s)' % (enc, dec, default), '')
     # ---- (e) ---------------------------------------------------------------------------
-    from props.C10 import snapshot_filter_excludes_ok
-    ok, why = snapshot_filter_excludes_ok(m)
-    sel = [b for b in P.user_bodies() if b.kind == 'closure' and b.locals[0] == 'bool' and 'storage::common' in b.id]
-    okor = False
-    for b in sel:
-        # result = (state != Ok) || reclaim  : the reclaim capture reaches the return on the false edge of the state test
-        for bi, t in b.calls():
-            if callee_decl(t) == 'std::cmp::PartialEq::ne':
-                for (s2, tt, ft) in bool_switches(b, bi):
-                    f_reg = {x for x in b.reachable() if b.dominates(ft, x)}
-                    for (dbi, dsi, kind, pl) in b.defs().get(0, []):
-                        if dbi in f_reg and kind == 'assign' and pl['k'] == 'use':
-                            if any(r[0] == 'capture' for r in origins(b, pl['o'])):
-                                okor = True
+    shp = selection_shape(m)
+    ok, okor = shp['compares_ok'], shp['or_reclaim']
     ck.ob('C06.e', 'get_keys_to_update', 'selection', ok and okor,
           'selects state != Ok, or everything when the reclaim flag is set' if ok and okor else 'selection predicate: state test=%s, || reclaim=%s' % (ok, okor), '')
     # ---- (f) ---------------------------------------------------------------------------
@@ -793,10 +781,135 @@ def appended_key_remembered_where_appended(ck, m):
             if not after_append:
                 continue
             n += 1
-            from_entry = [r for r in origins(b, t['args'][4]) if any(q and q[0] == 'f' and q[2] == 'key_disk_addr' for q in (r[-1] or ()))]
+            # the value the operand has on a path THROUGH the append: when the operand's local is (re)defined between the append and
+            # the mark call (`let (key_addr, key_size) = if .. { (entry addr, 0) } else { (running offset, write_key(..)) }`), only
+            # those definitions count; a definition made on the other branch is not on such a path
+            op4 = t['args'][4]
+            pl4 = op4.get('c') or op4.get('m')
+            between = set()
+            for w in after_append:
+                fw = b.reach_from([w], stop=stop, include_start=True)
+                between |= {x for x in fw if c in b.reach_from([x], stop=stop, include_start=True)}
+            ops_on_path = []
+            seen_l = set()
+
+            def resolve(op_, depth=0):
+                """operands that give `op_` its value on a path through the append"""
+                q_ = op_.get('c') or op_.get('m')
+                if q_ is None or depth > 8:
+                    return [op_]
+                fidx = [e[1] for e in (q_.get('p') or []) if e[0] == 'f']
+                if (q_['l'], tuple(fidx)) in seen_l:
+                    return []
+                seen_l.add((q_['l'], tuple(fidx)))
+                defs_ = [(dbi, rv) for (dbi, dsi, kind, rv) in b.defs().get(q_['l'], []) + b.defs().get(('partial', q_['l']), [])
+                         if kind == 'assign' and dbi in between]
+                if not defs_:
+                    return [op_]
+                out_ = []
+                for dbi, rv in defs_:
+                    rv_ = rv if 'k' in rv and rv['k'] != 'assign' else rv.get('r', rv)
+                    if rv_['k'] in ('use', 'cast') and not fidx:
+                        out_ += resolve(rv_['o'], depth + 1)
+                    elif rv_['k'] == 'agg' and fidx and fidx[0] < len(rv_['ops']):
+                        out_ += resolve(rv_['ops'][fidx[0]], depth + 1)
+                    elif rv_['k'] in ('use', 'cast') and fidx:
+                        src = rv_['o'].get('c') or rv_['o'].get('m')
+                        if src is not None:
+                            o2 = {'c': {'l': src['l'], 'p': list(src.get('p') or []) + [['f', fidx[0]]]}}
+                            out_ += resolve(o2, depth + 1)
+                        else:
+                            out_.append(rv_['o'])
+                    else:
+                        out_.append(op_)
+                return out_
+            ops_on_path = resolve(op4)
+            probe = ops_on_path or [op4]
+            from_entry = [r for o_ in probe for r in origins(b, o_) if any(q and q[0] == 'f' and q[2] == 'key_disk_addr' for q in (r[-1] or ()))]
             ck.ob('C06.o', short(b.id), 'appended-key-remembered-where-appended:%d' % n, not from_entry,
                   'after an append the entry is remembered at the running offset of the key file' if not from_entry else
                   'the mark-as-saved at %s can follow an append of the key record (%s) and still takes the key address from the copied entry: after '
                   'a reclaiming snapshot the entry keeps its offset into the OLD key file — the next incremental snapshot writes its 12-byte '
                   'in-place update into another key\'s record of the rewritten file' % (b.loc(c), [b.loc(w) for w in after_append]), b.loc(c))
     ck.floor('C06.o', n, 1, 'mark-as-saved calls that can follow an append of the key record')
+
+
+def selection_shape(m):
+    """the snapshot's selection of entries (`state != Ok || reclaim`), as a bool closure handed to the generic filter or as a loop in the
+    selecting function itself: -> dict(found, compares_ok, or_reclaim, total_when_reclaim, why)"""
+    from props.C07 import natural_loops
+    P = m.prog
+    out = {'found': False, 'compares_ok': False, 'or_reclaim': False, 'total_when_reclaim': False, 'why': 'selection not found', 'body': None}
+    sel_fns = [b for b in P.user_bodies() if b.kind in ('fn', 'method') and b.locals[0].startswith('std::vec::Vec<(std::string::String, nundb::bo::Value)>')
+               and 'bool' in b.locals[1:b.argc + 1]]
+    for sb in sel_fns:
+        flag = [i for i in range(1, sb.argc + 1) if sb.locals[i] == 'bool']
+
+        def ok_compares(body):
+            return [bi for bi, t in body.calls() if callee_decl(t) in ('std::cmp::PartialEq::ne', 'std::cmp::PartialEq::eq')
+                    and any(core.const_of(r) and core.const_of(r).get('variant') == 'Ok' for a in t['args'] for r in origins(body, a))]
+        closures = [cb for k, cb in P.bodies.items() if k.startswith(sb.id + '::{closure') and not cb.promoted and cb.locals[0] == 'bool']
+        if closures:
+            cb = closures[0]
+            out.update(found=True, body=cb)
+            cmp_ = ok_compares(cb)
+            out['compares_ok'] = bool(cmp_)
+            roots = list(core.place_origins(cb, {'l': 0}))
+            site = P.closure_sites().get(cb.id)
+
+            def is_flag(r):
+                return r[0] == 'capture' and site is not None and r[1] < len(site[3]) and any(
+                    r2[0] == 'param' and r2[1] in flag for r2 in origins(site[0], site[3][r[1]]))
+            for bi in cmp_:
+                for (s2, tt, ft) in bool_switches(cb, bi):
+                    eq = callee_decl(cb.term(bi)).endswith('::eq')
+                    ok_edge = tt if eq else ft          # the edge on which the state IS Ok
+                    reg = {x for x in cb.reachable() if cb.dominates(ok_edge, x)}
+                    for (dbi, dsi, kind, pl) in cb.defs().get(0, []):
+                        if dbi in reg and kind == 'assign' and pl['k'] == 'use' and any(is_flag(r) for r in origins(cb, pl['o'])):
+                            out['or_reclaim'] = True
+            bad = [r for r in roots if not ((r[0] == 'const' and const_val(r) is True) or is_flag(r))]
+            out['total_when_reclaim'] = bool(roots) and not bad
+            out['why'] = 'closure form: returns %s' % sorted({r[0] if r[0] != 'const' else 'const:%s' % const_val(r) for r in roots})
+            return out
+        # loop form
+        pushes = [bi for bi, t in sb.calls() if callee_decl(t) == 'std::vec::Vec::push']
+        cmp_ = ok_compares(sb)
+        if not pushes or not cmp_:
+            continue
+        out.update(found=True, body=sb, compares_ok=True)
+        flag_sw = []
+        for bi in sb.reachable():
+            ts = sb.term(bi)
+            if ts['k'] == 'switch' and any(r[0] == 'param' and r[1] in flag for r in origins(sb, ts['o'])):
+                zero = [tb for v, tb in ts['targets'] if str(v) == '0']
+                if zero:
+                    flag_sw.append((bi, ts['else'], zero[0]))
+        for bi in cmp_:
+            for (s2, tt, ft) in bool_switches(sb, bi):
+                eq = callee_decl(sb.term(bi)).endswith('::eq')
+                ok_edge = tt if eq else ft
+                for (fbi, f_t, f_f) in flag_sw:
+                    if sb.dominates(ok_edge, fbi) or fbi == ok_edge:
+                        if any(p_ in sb.reach_from([f_t], include_start=True) for p_ in pushes) and not any(
+                                sb.dominates(f_f, p_) for p_ in pushes):
+                            out['or_reclaim'] = True
+        # with the flag true: inside an iteration nothing reaches the loop head around the push
+        blocked = {f_f for (_b, _t, f_f) in flag_sw}
+        total = True
+        for h, body in natural_loops(sb):
+            if not any(p_ in body for p_ in pushes):
+                continue
+            nexts = [x for x in body if sb.term(x)['k'] == 'call' and callee_decl(sb.term(x)) == 'std::iter::Iterator::next']
+            for nx in nexts:
+                for (sbi, tm, els, adt) in core.enum_switches(sb, nx):
+                    some_t = tm.get('1')
+                    if some_t is None:
+                        continue
+                    seen = sb.reach_from([some_t], stop=lambda y: y in pushes or y in blocked or y not in body, include_start=True)
+                    if h in seen and some_t != h:
+                        total = False
+        out['total_when_reclaim'] = total
+        out['why'] = 'loop form'
+        return out
+    return out
